@@ -60,7 +60,7 @@ GuardDirEnt(st, e) ==
   /\ e.resolves /\ e.tgt_num = e.num                                   \* header inode number + delta names the inode
   /\ e.type = e.tgt_type
   /\ (e.tgt_type = "dir" => e.tgt_parent = e.dir)
-GuardDirIndex(st, e) == e.points_at_header /\ e.name_matches
+GuardDirIndex(st, e) == e.points_at_header /\ e.name_matches /\ e.block_matches
 GuardEnd(st) == /\ st.ninodes = st.sup.inodes /\ Cardinality(st.nums) = st.sup.inodes
                 /\ st.sawId /\ (st.sup.has_export => st.sawExport) /\ st.hdrLeft = 0
 
